@@ -765,4 +765,208 @@ Proof using.
   intros Hlim. split; [intros s Hr; apply at_most_limit_running; assumption|].
   split; [exact returned_complete|]. split; [intros s; apply progress; assumption|exact termination].
 Qed.
+
+(* ================= the controller-driven scheduler (dispatch `parallel`) ================= *)
+Notation all_labels := (all_labels k).
+Notation sim_close := (sim_close R k limit res).
+Notation quiesce := (quiesce R k limit res).
+Notation open_gates := (open_gates R k limit res).
+Notation simulate := (simulate R k limit res).
+
+Definition SimInv (opened : list nat) (x : sim R) : Prop :=
+  reachable (sst x) /\
+  (exists ls, path init ls (sst x) /\ strace x = rev (vis ls)) /\
+  smax x <= limit /\
+  (forall j, ~ In j opened -> rank (wat (sst x) j) <= 2).
+
+Lemma SimInv_weaken opened opened' x : SimInv opened x -> incl opened opened' -> SimInv opened' x.
+Proof using.
+  intros (Hr & Hp & Hm & Hg) Hi. repeat split; try assumption. intros j Hj. apply Hg. intros H. apply Hj, Hi, H.
+Qed.
+
+Lemma existsb_eqb_In i l : existsb (Nat.eqb i) l = true -> In i l.
+Proof using. intros H. apply existsb_exists in H as (x & Hx & E). apply Nat.eqb_eq in E. congruence. Qed.
+
+Lemma sim_close_inv opened fuel x : SimInv opened x -> SimInv opened (sim_close opened fuel x).
+Proof using.
+  revert x; induction fuel as [|f IH]; intros x HI; cbn [Par.sim_close]; [assumption|].
+  destruct (first_step (sst x) (filter (gate_ok opened) all_labels)) as [[l s']|] eqn:E; [|assumption].
+  apply first_step_some in E as [Hin Hs]. apply filter_In in Hin as [_ Hgate].
+  destruct HI as (Hr & (ls & Hp & Htr) & Hm & Hg).
+  assert (Hr' : reachable s') by (econstructor; eauto).
+  apply IH. unfold SimInv; cbn [sst strace smax]. split; [assumption|]. split; [|split].
+  - exists (ls ++ [l]). split; [eapply path_app; [exact Hp|econstructor; [exact Hs|constructor]]|].
+    rewrite vis_app, rev_app_distr. simpl. destruct (event_of l); simpl; congruence.
+  - destruct (at_most_limit_running s' Hr') as [_ Hrun]. apply Nat.max_lub; assumption.
+  - intros j Hj. specialize (Hg j Hj). pose proof (step_view (sst x) l s' (reachable_inv _ Hr) Hs) as Hv.
+    destruct l as [|i|i|i|i| |].
+    + destruct Hv as (i & _ & _ & _ & _ & Hn & Hwat). rewrite Hwat. destruct (Nat.eqb_spec j i); [simpl; lia|assumption].
+    + destruct Hv as (_ & _ & Hwat). rewrite Hwat. destruct (Nat.eqb_spec j i); [simpl; lia|assumption].
+    + destruct Hv as (_ & _ & Hwat). rewrite Hwat. destruct (Nat.eqb_spec j i) as [->|]; [|assumption].
+      exfalso. apply Hj. apply existsb_eqb_In. exact Hgate.
+    + destruct Hv as (Ei & _ & Hwat). rewrite Hwat. destruct (Nat.eqb_spec j i) as [->|]; [|assumption].
+      rewrite Ei in Hg. simpl in Hg. lia.
+    + destruct Hv as (Ei & _ & Hwat). rewrite Hwat. destruct (Nat.eqb_spec j i) as [->|]; [|assumption].
+      rewrite Ei in Hg. simpl in Hg. lia.
+    + destruct Hv as (j0 & _ & _ & _ & _ & Hwat). rewrite Hwat. assumption.
+    + destruct Hv as (j0 & _ & _ & _ & Hwat). rewrite Hwat. assumption.
+Qed.
+
+Lemma sim_close_fixed opened fuel x : reachable (sst x) -> measure (sst x) <= fuel ->
+  first_step (sst (sim_close opened fuel x)) (filter (gate_ok opened) all_labels) = None.
+Proof using.
+  revert x; induction fuel as [|f IH]; intros x Hr Hm; cbn [Par.sim_close].
+  - apply first_step_all_none. apply returned_final; [assumption|]. apply measure_returned; [assumption|lia].
+  - destruct (first_step (sst x) (filter (gate_ok opened) all_labels)) as [[l s']|] eqn:E; [|exact E].
+    apply first_step_some in E as [_ Hs]. apply IH; cbn [sst]; [econstructor; eauto|].
+    pose proof (measure_step _ l s' Hr Hs). lia.
+Qed.
+
+Lemma quiesce_inv opened x : SimInv opened x -> SimInv opened (quiesce opened x).
+Proof using. apply sim_close_inv. Qed.
+
+(* after quiescence nothing but a closed gate is enabled *)
+Lemma quiesce_terminal opened x : SimInv opened x -> forall l,
+  gate_ok opened l = true -> step_ok (sst (quiesce opened x)) l = None.
+Proof using.
+  intros HI l Hgate. pose proof (quiesce_inv opened x HI) as (Hr' & _).
+  destruct HI as (Hr & _).
+  pose proof (sim_close_fixed opened _ x Hr (le_n _)) as Hf. fold (quiesce opened x) in Hf.
+  set (g := sst (quiesce opened x)) in *.
+  pose proof (first_step_none _ _ Hf) as Hn.
+  destruct (reachable_inv g Hr') as (Hlw & _).
+  assert (Hover : forall i a, k <= i -> a <> NotYet -> wst_eqb (wat g i) a = false).
+  { intros i a Hi Ha. destruct (wst_eqb (wat g i) a) eqn:E; [|reflexivity]. apply wst_eqb_eq in E.
+    unfold wat in E. rewrite nth_overflow in E by lia. congruence. }
+  assert (Hall : forall i, i < k -> forall l', In l' [w_logstart i; w_store i; w_logdone i; w_release i] -> In l' all_labels).
+  { intros i Hi l' Hl'. unfold Par.all_labels. right; right; right. apply in_flat_map. exists i. split; [apply in_seq; lia|exact Hl']. }
+  destruct l as [|i|i|i|i| |].
+  - apply Hn. apply filter_In. split; [left; reflexivity|exact Hgate].
+  - destruct (Nat.lt_ge_cases i k) as [Hi|Hi].
+    + apply Hn. apply filter_In. split; [apply (Hall i Hi); simpl; tauto|exact Hgate].
+    + cbn [Par.step_ok]. rewrite Hover by (assumption || discriminate). reflexivity.
+  - destruct (Nat.lt_ge_cases i k) as [Hi|Hi].
+    + apply Hn. apply filter_In. split; [apply (Hall i Hi); simpl; tauto|exact Hgate].
+    + cbn [Par.step_ok]. rewrite Hover by (assumption || discriminate). reflexivity.
+  - destruct (Nat.lt_ge_cases i k) as [Hi|Hi].
+    + apply Hn. apply filter_In. split; [apply (Hall i Hi); simpl; tauto|exact Hgate].
+    + cbn [Par.step_ok]. rewrite Hover by (assumption || discriminate). reflexivity.
+  - destruct (Nat.lt_ge_cases i k) as [Hi|Hi].
+    + apply Hn. apply filter_In. split; [apply (Hall i Hi); simpl; tauto|exact Hgate].
+    + cbn [Par.step_ok]. rewrite Hover by (assumption || discriminate). reflexivity.
+  - apply Hn. apply filter_In. split; [right; left; reflexivity|exact Hgate].
+  - apply Hn. apply filter_In. split; [right; right; left; reflexivity|exact Hgate].
+Qed.
+
+Lemma open_gates_inv order : forall opened x,
+  SimInv opened x -> NoDup order -> (forall j, In j order -> j < k /\ ~ In j opened) ->
+  exists opened', SimInv opened' (fst (open_gates order opened x false)) /\
+                  snd (open_gates order opened x false) = false.
+Proof using.
+  induction order as [|j r IH]; intros opened x HI Hnd Hin; cbn [Par.open_gates].
+  - exists opened. split; [assumption|reflexivity].
+  - destruct (Hin j (or_introl eq_refl)) as [Hj Hjo].
+    assert (Hnr : is_returned (sst x) = false).
+    { destruct HI as (Hr & _ & _ & Hg). unfold is_returned. destruct (pc (sst x)) eqn:E; try reflexivity.
+      destruct (returned_complete _ Hr E) as [Hrel _]. specialize (Hg j Hjo). rewrite Hrel in Hg by assumption.
+      simpl in Hg. lia. }
+    rewrite Hnr. cbn [orb]. inversion Hnd as [|? ? Hnj Hnd']; subst.
+    apply IH; [|assumption|].
+    + apply quiesce_inv. apply (SimInv_weaken opened); [assumption|]. intros a Ha. right; assumption.
+    + intros a Ha. destruct (Hin a (or_intror Ha)) as [Hak Hao]. split; [assumption|].
+      intros [<-|H]; [apply Hnj; assumption|apply Hao; assumption].
+Qed.
+
+Lemma count_all f (l : list wst) n : (forall i, i < length l -> f (nth i l NotYet) = n) -> count f l = length l * n.
+Proof using.
+  induction l as [|x t IH]; simpl; intros H; [reflexivity|].
+  rewrite (H 0 ltac:(lia)). rewrite IH; [reflexivity|]. intros i Hi. apply (H (S i)). lia.
+Qed.
+Lemma count_bound f (l : list wst) : (forall w, f w <= 1) -> count f l <= length l.
+Proof using. intros H. induction l as [|x t IH]; simpl; [lia|]. specialize (H x). lia. Qed.
+Lemma count_ext_pointwise f g (l : list wst) :
+  (forall i, i < length l -> f (nth i l NotYet) = g (nth i l NotYet)) -> count f l = count g l.
+Proof using.
+  induction l as [|x t IH]; simpl; intros H; [reflexivity|].
+  rewrite (H 0 ltac:(lia)). rewrite IH; [reflexivity|]. intros i Hi. apply (H (S i)). lia.
+Qed.
+
+(* with every gate closed exactly min(k, limit) algorithms start *)
+Lemma saturation x : SimInv [] x -> running (sst (quiesce [] x)) = Nat.min k limit.
+Proof using.
+  intros HI. pose proof (quiesce_terminal [] x HI) as Hterm.
+  pose proof (quiesce_inv [] x HI) as (Hr & _ & _ & Hg).
+  set (g := sst (quiesce [] x)) in *.
+  destruct (reachable_inv g Hr) as (Hlw & Hlr & Hsem & Hle & Hpc & Hny & Hrs).
+  (* every worker is NotYet or Started *)
+  assert (Hw : forall i, wat g i = NotYet \/ wat g i = Started).
+  { intros i. specialize (Hg i (fun H => H)). pose proof (Hterm (w_logstart i) eq_refl) as Hs.
+    cbn [Par.step_ok] in Hs. destruct (wat g i); simpl in *; try lia; try discriminate; tauto. }
+  assert (Hra : running g = count isact (ws g)).
+  { unfold running. apply count_ext_pointwise. intros i _. fold (wat g i). destruct (Hw i) as [->| ->]; reflexivity. }
+  rewrite Hra.
+  destruct (pc g) as [i|j|] eqn:Epc; simpl in *.
+  - pose proof (Hterm main_acquire_spawn eq_refl) as Hs. cbn [Par.step_ok] in Hs. rewrite Epc in Hs.
+    destruct (sem g <? limit) eqn:E; [discriminate|]. apply Nat.ltb_ge in E.
+    assert (count isact (ws g) < k).
+    { (* worker i is NotYet, so fewer than k are active *)
+      assert (Hi0 : wat g i = NotYet) by (apply Hny; lia).
+      pose proof (count_update isact i Spawned (ws g) ltac:(lia)) as Hc. fold (wat g i) in Hc. rewrite Hi0 in Hc.
+      pose proof (count_bound isact (update i Spawned (ws g)) ltac:(intros []; simpl; lia)) as Hb.
+      rewrite update_length in Hb. simpl in Hc. lia. }
+    lia.
+  - assert (count isact (ws g) = k).
+    { rewrite (count_all isact (ws g) 1); [lia|]. intros i Hi. fold (wat g i).
+      destruct (Hw i) as [E|E]; [apply Hny in E; lia|rewrite E; reflexivity]. }
+    lia.
+  - destruct (returned_complete g Hr Epc) as [Hrel _].
+    destruct k as [|k']; [destruct (ws g); [reflexivity|discriminate]|].
+    specialize (Hrel 0 ltac:(lia)). destruct (Hw 0); congruence.
+Qed.
+
+Lemma SimInv_init : SimInv [] {| sst := init; strace := []; smax := 0 |}.
+Proof using.
+  unfold SimInv; cbn [sst strace smax]. split; [apply r_init|]. split; [exists []; split; [constructor|reflexivity]|].
+  split; [lia|]. intros j _. unfold wat, Par.init; simpl.
+  destruct (Nat.lt_ge_cases j k); [rewrite nth_repeat_lt by assumption|rewrite nth_overflow by (rewrite repeat_length; lia)]; simpl; lia.
+Qed.
+
+(* what the model side of a `parallel` case prints is a theorem, not only a computation: for
+   limit >= 1 and every order of opening the gates, the simulated run is a complete execution of
+   the LTS, returns the sequential slice, never exceeds the limit, never returns while a gate is
+   closed, starts exactly min(k,limit) algorithms while all gates are closed, and its trace is
+   accepted by the acceptor *)
+Theorem simulate_sound order : 1 <= limit -> NoDup order -> (forall j, In j order -> j < k) ->
+  let o := simulate order in
+  o_returned o = true /\ o_slots o = sequential /\ o_sat o = Nat.min k limit /\
+  o_early o = false /\ o_over o = false /\ accepts (o_trace o) = true.
+Proof using.
+  intros Hlim Hnd Hin. unfold Par.simulate.
+  set (x0 := quiesce [] {| sst := init; strace := []; smax := 0 |}).
+  pose proof (quiesce_inv _ _ SimInv_init) as HI0. fold x0 in HI0.
+  destruct (open_gates_inv order [] x0 HI0 Hnd ltac:(intros j Hj; split; [apply Hin; assumption|intros []]))
+    as (opened' & HI1 & Hearly).
+  destruct (open_gates order [] x0 false) as [x1 early] eqn:Eog. cbn [fst snd] in HI1, Hearly.
+  (* gates of indices >= k do not exist: opening them changes nothing, so use seq 0 k directly *)
+  assert (HIb : SimInv (seq 0 k) x1).
+  { destruct HI1 as (Hr & Hp & Hm & Hg). repeat split; try assumption. intros j Hj.
+    destruct (Nat.lt_ge_cases j k) as [Hjk|Hjk]; [exfalso; apply Hj, in_seq; lia|].
+    destruct (reachable_inv _ Hr) as (Hlw & _). unfold wat. rewrite nth_overflow by lia. simpl. lia. }
+  pose proof (quiesce_inv _ _ HIb) as (Hr2 & (ls & Hp2 & Htr) & Hm2 & _).
+  assert (Hterm : forall l, step_ok (sst (quiesce (seq 0 k) x1)) l = None).
+  { intros l. pose proof (quiesce_terminal _ _ HIb l) as Ht.
+    destruct (reachable_inv _ Hr2) as (Hlw & _).
+    destruct l as [|i|i|i|i| |]; try (apply Ht; reflexivity).
+    destruct (Nat.lt_ge_cases i k) as [Hi|Hi].
+    - apply Ht. simpl. apply existsb_exists. exists i. split; [apply in_seq; lia|apply Nat.eqb_refl].
+    - cbn [Par.step_ok]. destruct (wst_eqb (wat (sst (quiesce (seq 0 k) x1)) i) Started) eqn:E; [|reflexivity].
+      apply wst_eqb_eq in E. unfold wat in E. rewrite nth_overflow in E by lia. discriminate. }
+  destruct (maximal_returns ls _ Hlim Hp2 Hterm) as [Hret _].
+  destruct (returned_complete _ Hr2 Hret) as [_ Hslots].
+  cbn [o_returned o_slots o_sat o_early o_over o_trace].
+  split; [unfold is_returned; rewrite Hret; reflexivity|]. split; [exact Hslots|].
+  split; [apply saturation, SimInv_init|]. split; [exact Hearly|].
+  split; [apply Nat.ltb_ge; exact Hm2|].
+  rewrite Htr, rev_involutive. eapply accepts_complete; eauto.
+Qed.
 End Par.
